@@ -146,6 +146,16 @@ Fixpoint split_comma (s : str) (cur : str) : list str :=
   | c :: r => if N.eqb c comma then rev cur :: split_comma r [] else split_comma r (c :: cur)
   end.
 
+(* s.rsplit(',', 1): the text before and after the LAST comma; None when there is no comma *)
+Fixpoint rsplit_comma (s : str) : option (str * str) :=
+  match s with
+  | [] => None
+  | c :: r => match rsplit_comma r with
+              | Some (a, b) => Some (c :: a, b)
+              | None => if N.eqb c comma then Some ([], r) else None
+              end
+  end.
+
 Definition dec_val (k : kind) (d : dec) (x : option str) : res (option fval) :=
   match d with
   | DGet => Ok (match x with Some s => Some (FStr s) | None => None end)
@@ -178,6 +188,14 @@ Definition dec_val (k : kind) (d : dec) (x : option str) : res (option fval) :=
       | Some s => match split_comma s [] with
                   | [p0; p1] => Ok (Some (FStr (match i with O => p0 | _ => p1 end)))
                   | _ => Err ExValue              (* not exactly two parts to unpack *)
+                  end
+      end
+  | DRSplitComma i =>
+      match x with
+      | None => Ok None
+      | Some s => match rsplit_comma s with
+                  | Some (p0, p1) => Ok (Some (FStr (match i with O => p0 | _ => p1 end)))
+                  | None => Err ExValue           (* a single part cannot be unpacked into two *)
                   end
       end
   end.
